@@ -90,6 +90,7 @@ type Engine struct {
 	pkgs      map[string]*ssa.Package
 	intr      map[string]Intrinsic
 	redirects map[string]*ssa.Function
+	selftest  int // >0: translator self-test, models per path
 	skipInit  map[string]bool
 	errType   types.Type
 	logw      io.Writer
@@ -488,7 +489,10 @@ func (e *Engine) runPath(w *Worker, cfg *EntryCfg, fn *ssa.Function, dec []Decis
 			case *GoPanic:
 				res.Status = "panic"
 				res.Msg = x.Msg
-				if !p.panicOK {
+				if e.selftest > 0 {
+					p.cur = nil
+					p.recordObservations(e.selftest, true)
+				} else if !p.panicOK {
 					p.res.Asserts++
 					p.cur = nil
 					p.recordViolation("panic", "panic: "+x.Msg, nil)
@@ -500,6 +504,9 @@ func (e *Engine) runPath(w *Worker, cfg *EntryCfg, fn *ssa.Function, dec []Decis
 	}()
 	p.callFunction(fn, nil, nil)
 	res.Status = "done"
+	if e.selftest > 0 {
+		p.recordObservations(e.selftest, false)
+	}
 	return res
 }
 
@@ -527,6 +534,7 @@ func (e *Engine) explore(entries []EntryCfg, nworkers int, solverBin string, qti
 	}
 	active := 0
 	starts := make([]time.Time, len(entries))
+	busy := make([]time.Duration, len(entries))
 	workers := make([]*Worker, nworkers)
 	var wg sync.WaitGroup
 	var firstErr error
@@ -568,7 +576,9 @@ func (e *Engine) explore(entries []EntryCfg, nworkers int, solverBin string, qti
 				if starts[it.entry].IsZero() {
 					starts[it.entry] = time.Now()
 				}
-				if er.Cfg.TimeoutS > 0 && time.Since(starts[it.entry]) > time.Duration(er.Cfg.TimeoutS)*time.Second {
+				// the time limit of an entry is a budget of worker time (TimeoutS seconds of
+				// all workers), so that entries sharing the workers do not starve each other
+				if er.Cfg.TimeoutS > 0 && busy[it.entry] > time.Duration(er.Cfg.TimeoutS)*time.Second*time.Duration(nworkers) {
 					er.Truncated = true
 					mu.Unlock()
 					continue
@@ -576,6 +586,7 @@ func (e *Engine) explore(entries []EntryCfg, nworkers int, solverBin string, qti
 				er.Paths++
 				active++
 				mu.Unlock()
+				tPath := time.Now()
 
 				var res *PathResult
 				func() {
@@ -592,6 +603,7 @@ func (e *Engine) explore(entries []EntryCfg, nworkers int, solverBin string, qti
 
 				mu.Lock()
 				active--
+				busy[it.entry] += time.Since(tPath)
 				for _, alt := range res.Alts {
 					stack = append(stack, workItem{entry: it.entry, dec: alt})
 				}
